@@ -47,15 +47,15 @@ let first_verdict strict limit bytes =
     if Ref.utf8_valid (take (int_of_nat b) bytes) && (not strict || all_finite v) && int_of_nat (Ref.depth v) <= limit then "1" else "0"
 
 let () =
-  reg "skipfirst" (function limit :: h :: _ -> first_verdict false (ios limit) (bytes_of_hex h) | _ -> raise (Bad_op "skipfirst"));
-  reg "fullfirst" (function limit :: h :: _ -> first_verdict true (ios limit) (bytes_of_hex h) | _ -> raise (Bad_op "fullfirst"));
-  reg "skipacc" (function limit :: h :: _ -> skip_verdict (ios limit) (bytes_of_hex h) | _ -> raise (Bad_op "skipacc"));
-  reg "fullacc" (function limit :: h :: _ -> full_verdict (ios limit) (bytes_of_hex h) | _ -> raise (Bad_op "fullacc"));
+  reg_memo 2 "skipfirst" (function limit :: h :: _ -> first_verdict false (ios limit) (bytes_of_hex h) | _ -> raise (Bad_op "skipfirst"));
+  reg_memo 2 "fullfirst" (function limit :: h :: _ -> first_verdict true (ios limit) (bytes_of_hex h) | _ -> raise (Bad_op "fullfirst"));
+  reg_memo 2 "skipacc" (function limit :: h :: _ -> skip_verdict (ios limit) (bytes_of_hex h) | _ -> raise (Bad_op "skipacc"));
+  reg_memo 2 "fullacc" (function limit :: h :: _ -> full_verdict (ios limit) (bytes_of_hex h) | _ -> raise (Bad_op "fullacc"));
   reg "utf8" (function [h] -> sb (Ref.utf8_valid (bytes_of_hex h)) | _ -> raise (Bad_op "utf8"));
   (* reference get on arbitrary bytes: "a,b" span or "none" *)
   (* C14 is the soundness direction: a returned span must be the reference one and its prefix valid
      UTF-8; the implementation may reject more (e.g. it looks one byte past a number): "x||none" *)
-  reg "refget" (function p :: h :: _ ->
+  reg_memo 2 "refget" (function p :: h :: _ ->
       let bytes = bytes_of_hex h in
       (match Ref.ref_get bytes (path_of_arg p) with
        | Some (a, b) when Ref.utf8_valid (take (int_of_nat b) bytes) -> Printf.sprintf "%d,%d||none" (int_of_nat a) (int_of_nat b)
@@ -96,28 +96,30 @@ let lookup_text bytes path =
   | Some ((v, a), b) -> Some (Ref.lookup v a b path)
 
 let () =
-  reg "dump" (function h :: _ ->
-      (match Ref.ref_text true (bytes_of_hex h) with Some ((v, _), _) -> dump_string v | None -> "reject") | _ -> raise (Bad_op "dump"));
-  reg "dumpraw" (function h :: _ ->
-      (match Ref.ref_text true (bytes_of_hex h) with Some ((v, _), _) -> dump_string ~raw:true v | None -> "reject") | _ -> raise (Bad_op "dumpraw"));
+  reg_memo 1 "dump" (function h :: _ ->
+      let b = bytes_of_hex h in
+      (match (if Ref.utf8_valid b then Ref.ref_text true b else None) with Some ((v, _), _) when all_finite v -> dump_string v | _ -> "reject") | _ -> raise (Bad_op "dump"));
+  reg_memo 1 "dumpraw" (function h :: _ ->
+      let b = bytes_of_hex h in
+      (match (if Ref.utf8_valid b then Ref.ref_text true b else None) with Some ((v, _), _) -> dump_string ~raw:true v | _ -> "reject") | _ -> raise (Bad_op "dumpraw"));
   (* get on a well-formed text: ok:a,b | notfound | type | malformed *)
-  reg "get" (function p :: h :: _ ->
+  reg_memo 2 "get" (function p :: h :: _ ->
       (match lookup_text (bytes_of_hex h) (path_of_arg p) with
        | None -> "malformed"
        | Some (Ref.Found (a, b, _)) -> Printf.sprintf "ok:%d,%d" (int_of_nat a) (int_of_nat b)
        | Some Ref.Missing -> "err" | Some Ref.WrongKind -> "err") | _ -> raise (Bad_op "get"));
-  reg "getdump" (function p :: h :: _ ->
+  reg_memo 2 "getdump" (function p :: h :: _ ->
       (match lookup_text (bytes_of_hex h) (path_of_arg p) with
        | None -> "malformed"
        | Some (Ref.Found (_, _, v)) -> "ok:" ^ dump_string v
        | Some _ -> "none") | _ -> raise (Bad_op "getdump"));
-  reg "gettext" (function p :: h :: _ ->
+  reg_memo 2 "gettext" (function p :: h :: _ ->
       let bytes = bytes_of_hex h in
       (match lookup_text bytes (path_of_arg p) with
        | None -> "malformed"
        | Some (Ref.Found (a, b, _)) -> "ok:" ^ hex_of_bytes (sub_bytes bytes (int_of_nat a) (int_of_nat b))
        | Some _ -> "none") | _ -> raise (Bad_op "gettext"));
-  reg "refgettext" (function p :: h :: _ ->
+  reg_memo 2 "refgettext" (function p :: h :: _ ->
       let bytes = bytes_of_hex h in
       (match Ref.ref_get bytes (path_of_arg p) with
        | Some (a, b) when Ref.utf8_valid (take (int_of_nat b) bytes) -> "ok:" ^ hex_of_bytes (sub_bytes bytes (int_of_nat a) (int_of_nat b)) ^ "||none"
@@ -181,10 +183,10 @@ let sorted_dump_string (v : Ref.jv) : string =
   go v
 
 let () =
-  reg "iterarr" (function h :: _ -> items_string ~with_key:false (Ref.ref_array_iter (bytes_of_hex h)) | _ -> raise (Bad_op "iterarr"));
-  reg "iterobj" (function h :: _ -> items_string ~with_key:true (Ref.ref_object_iter (bytes_of_hex h)) | _ -> raise (Bad_op "iterobj"));
-  reg "iterarr_text" (function h :: _ -> let b = bytes_of_hex h in items_string ~text:(Some b) ~with_key:false (Ref.ref_array_iter b) | _ -> raise (Bad_op "iterarr_text"));
-  reg "iterobj_text" (function h :: _ -> let b = bytes_of_hex h in items_string ~text:(Some b) ~with_key:true (Ref.ref_object_iter b) | _ -> raise (Bad_op "iterobj_text"));
+  reg_memo 1 "iterarr" (function h :: _ -> items_string ~with_key:false (Ref.ref_array_iter (bytes_of_hex h)) | _ -> raise (Bad_op "iterarr"));
+  reg_memo 1 "iterobj" (function h :: _ -> items_string ~with_key:true (Ref.ref_object_iter (bytes_of_hex h)) | _ -> raise (Bad_op "iterobj"));
+  reg_memo 1 "iterarr_text" (function h :: _ -> let b = bytes_of_hex h in items_string ~text:(Some b) ~with_key:false (Ref.ref_array_iter b) | _ -> raise (Bad_op "iterarr_text"));
+  reg_memo 1 "iterobj_text" (function h :: _ -> let b = bytes_of_hex h in items_string ~text:(Some b) ~with_key:true (Ref.ref_object_iter b) | _ -> raise (Bad_op "iterobj_text"));
   reg "manyok" (function p :: h :: impl :: _ -> many_verdict ~wellformed:true p h impl | _ -> raise (Bad_op "manyok"));
   reg "manysound" (function p :: h :: impl :: _ -> many_verdict ~wellformed:false p h impl | _ -> raise (Bad_op "manysound"));
   reg "schema" (function sh :: dh :: _ ->
